@@ -124,3 +124,38 @@ def kf1_take_in_sum(spec, problems):
         else:
             return None
     return "KF-1" if ok else None
+
+
+def kf9_output_only_multilevel(spec, problems):
+    """KF-9: an output-only rank split into two or more shape levels (sizes
+    symbolic, so the program runs): the ranges of the lower levels are clipped
+    to the rank's full extent, not to the enclosing partition, so when an
+    inner size does not divide the outer one some output elements are visited
+    twice.  Explains only over-contribution (values too large)."""
+    hit = False
+    for e in spec.exprs:
+        for r in output_only_ranks(spec, e):
+            ps = (spec.partitioning or {}).get(e.out.name) or {}
+            ds = ps.get(r) or []
+            if len(ds) >= 2 and all(d.startswith(("uniform_shape", "nway_shape")) for d in ds):
+                hit = True
+    if not hit:
+        return None
+    ok = False
+    for p in problems:
+        if p.get("kind") == "value-mismatch":
+            if p.get("n_missing") or p.get("n_under") or p.get("n_extra_inrange"):
+                return None
+            ok = True
+        elif p.get("kind") in ("differs-from-unpartitioned", "differs-from-unmapped",
+                               "seeds-disagree", "spacetime-changes-tensor"):
+            continue
+        else:
+            return None
+    return "KF-9" if ok else None
+
+
+def classify_plain(spec, problems):
+    """The known findings that can show in any plain-mode execution."""
+    return kf1_take_in_sum(spec, problems) or classify_name_error(spec, problems) or \
+        kf9_output_only_multilevel(spec, problems)
